@@ -294,14 +294,35 @@ func pair(r *rnd, a0 state) (state, state, string) {
 		return a, b, "eq:re-evaluate"
 	case 9: // fingerprint key/value boundary
 		if len(a.Fingerprint) == 0 {
-			b.Fingerprint["a=b"] = "c"
 			a2 := a.clone()
+			if len(a.Name)%2 == 0 {
+				// an entry framed as key "=" <len value> ":" value (only the value length-prefixed) cannot tell
+				// {a: "p=1:z"} from {"a=5:p": "z"}: both read a=5:p=1:z
+				z := a.Name
+				inner := fmt.Sprintf("p=%d:%s", len(z), z)
+				a2.Fingerprint["a"] = inner
+				b.Fingerprint[fmt.Sprintf("a=%d:p", len(inner))] = z
+				return a2, b, "ne:fingerprint-value-spelling-a-length-frame"
+			}
+			b.Fingerprint["a=b"] = "c"
 			a2.Fingerprint["a"] = "b=c"
 			return a2, b, "ne:fingerprint key=value boundary"
 		}
 		for k, v := range a.Fingerprint {
 			if len(v) < 1 {
 				return a, b, "eq:re-evaluate"
+			}
+			if len(v)%2 == 0 {
+				// the same with this state's own entry: k -> "p=<len v>:v"   vs   (k "=<len>:p") -> v
+				inner := fmt.Sprintf("p=%d:%s", len(v), v)
+				a.Fingerprint[k] = inner
+				b.Fingerprint = map[string]string{}
+				for k2, v2 := range a.Fingerprint {
+					b.Fingerprint[k2] = v2
+				}
+				delete(b.Fingerprint, k)
+				b.Fingerprint[fmt.Sprintf("%s=%d:p", k, len(inner))] = v
+				return a, b, "ne:fingerprint-value-spelling-a-length-frame"
 			}
 			// a: k -> "x=" + v   b: (k + "=x") -> v     both print as "k=x=v"
 			a.Fingerprint[k] = "x=" + v
